@@ -124,13 +124,31 @@ func (g G) DualConfig() []DualItem {
 				}
 				it.Body = append(it.Body, DualItem{Kind: "attr", Name: an, Value: &v})
 			}
+			if typ != "other" && g.Chance(40) {
+				mode := Pick(g, []string{"x", "y", "y"})
+				mv := m.ValOf(cty.StringVal(mode))
+				it.Body = append(it.Body, DualItem{Kind: "attr", Name: "mode", Value: &DualValue{Kind: "lit", Lit: &mv}})
+				if mode == "x" && g.Chance(60) {
+					// (declared only under mode = "x"; JSON cannot keep what the schema does not know)
+					v := g.dualLitString()
+					it.Body = append(it.Body, DualItem{Kind: "attr", Name: "xa", Value: &v})
+				}
+			}
 			if g.Chance(30) {
 				it.Body = append(it.Body, DualItem{Kind: "attr", Name: "dep", Value: &DualValue{Kind: "list", Elems: []DualValue{{Kind: Pick(g, []string{"ref", "bare"}), Ref: Pick(g, refTypes) + "." + Pick(g, refNames)}}}})
 			}
-			nd := g.Int(0, 2)
+			nd := g.Int(0, 3)
 			for k := 0; k < nd; k++ {
 				nv := m.ValOf(cty.NumberIntVal(int64(10 + k)))
-				it.Body = append(it.Body, DualItem{Kind: "block", Name: "disk", Body: []DualItem{{Kind: "attr", Name: "gb", Value: &DualValue{Kind: "lit", Lit: &nv}}}})
+				// (the blocks of one resource differ in what they declare, so their order is observable)
+				db := []DualItem{{Kind: "attr", Name: "gb", Value: &DualValue{Kind: "lit", Lit: &nv}}}
+				if k == 1 || g.Chance(30) {
+					db = append(db, DualItem{Kind: "attr", Name: "path", Value: ptrDV(g.dualLitString())})
+				}
+				if g.Chance(25) {
+					db = db[1:]
+				}
+				it.Body = append(it.Body, DualItem{Kind: "block", Name: "disk", Body: db})
 			}
 			items = append(items, it)
 		case 3:
@@ -142,8 +160,13 @@ func (g G) DualConfig() []DualItem {
 			it := DualItem{Kind: "block", Name: "data", Labels: []string{nm}, Body: []DualItem{{Kind: "attr", Name: "q", Value: ptrDV(g.dualLitString())}}}
 			if g.Chance(55) {
 				// a reference that declares the address it names (Reference.Address): interpolated or legacy bare string in JSON
-				it.Body = append(it.Body, DualItem{Kind: "attr", Name: "alias", Value: &DualValue{Kind: Pick(g, []string{"ref", "bare"}),
-					Ref: "prov." + Pick(g, refNames) + Pick(g, []string{"", "", ".west"})}})
+				av := DualValue{Kind: Pick(g, []string{"ref", "bare"}), Ref: "prov." + Pick(g, refNames) + Pick(g, []string{"", "", ".west"})}
+				if g.Chance(25) {
+					// a string index step: only as legacy bare string in JSON (the interpolated form is the
+					// escaped-index finding recorded for origins)
+					av = DualValue{Kind: "bare", Ref: "prov." + Pick(g, refNames) + Pick(g, []string{`["k"]`, `["a b"].x`, `[0]`})}
+				}
+				it.Body = append(it.Body, DualItem{Kind: "attr", Name: "alias", Value: &av})
 			}
 			items = append(items, it)
 		default:
@@ -241,6 +264,21 @@ func (g G) RefSchemaSimple() m.BodyM {
 	}}}
 	out.Body.Attrs["lit"] = m.AttrM{Flag: "optional", Cons: litStr}
 	root.Blocks["output"] = out
+	// second level: the dependent bodies of resource (keyed by the type label) declare a key
+	// attribute of their own; a further body is registered under one of its values only
+	res := root.Blocks["resource"]
+	nfirst := len(res.Deps)
+	for i := 0; i < nfirst; i++ {
+		res.Deps[i].Body.Attrs["mode"] = m.AttrM{Flag: "optional", DepKey: true, Cons: litStr}
+		xv := m.ValOf(cty.StringVal("x"))
+		// (a second-level body replaces the first-level one, so it repeats what that one declares)
+		second := m.BodyM{Attrs: map[string]m.AttrM{"xa": {Flag: "optional", Cons: anyOf(cty.String)}}, Ext: res.Deps[i].Body.Ext}
+		for n, a := range res.Deps[i].Body.Attrs {
+			second.Attrs[n] = a
+		}
+		res.Deps = append(res.Deps, m.DepM{Labels: append([]m.LabelKeyM(nil), res.Deps[i].Labels...), Attrs: []m.AttrKeyM{{Name: "mode", Static: &xv}}, Body: second})
+	}
+	root.Blocks["resource"] = res
 	data := root.Blocks["data"]
 	data.Body.Attrs["alias"] = m.AttrM{Flag: "optional", Cons: m.ConsM{K: "ref", AddrScope: "alias", Name: "alias"}}
 	root.Blocks["data"] = data
@@ -368,6 +406,70 @@ func bodyJSON(items []DualItem) orderedMap {
 	}
 	for _, n := range blockOrder {
 		out = append(out, kv{n, blockGroups[n]})
+	}
+	return out
+}
+
+// RenderJSONLayout renders items in HCL's JSON syntax with hand-made layout: layout[i] picks
+// the white space written at the i-th opportunity (after "{", "[", "," and before "}", "]"),
+// cyclically. An empty layout gives the regular two-space indentation.
+func RenderJSONLayout(items []DualItem, layout []int) string {
+	if len(layout) == 0 {
+		return RenderJSON(items)
+	}
+	b, err := json.Marshal(bodyJSON(items))
+	if err != nil {
+		panic(err)
+	}
+	ws := []string{"", " ", "\n", "\n  ", "\n      ", "\n          ", "  ", "\n "}
+	var sb strings.Builder
+	n := 0
+	gap := func() {
+		sb.WriteString(ws[layout[n%len(layout)]%len(ws)])
+		n++
+	}
+	inStr, esc := false, false
+	for _, c := range b {
+		if inStr {
+			sb.WriteByte(c)
+			switch {
+			case esc:
+				esc = false
+			case c == '\\':
+				esc = true
+			case c == '"':
+				inStr = false
+			}
+			continue
+		}
+		switch c {
+		case '"':
+			inStr = true
+			sb.WriteByte(c)
+		case '{', '[', ',':
+			sb.WriteByte(c)
+			gap()
+		case '}', ']':
+			gap()
+			sb.WriteByte(c)
+		case ':':
+			sb.WriteString(": ")
+		default:
+			sb.WriteByte(c)
+		}
+	}
+	return sb.String() + "\n"
+}
+
+// Layout draws a JSON layout for RenderJSONLayout (empty: regular indentation).
+func (g G) Layout() []int {
+	if g.Chance(40) {
+		return nil
+	}
+	n := g.Int(3, 12)
+	out := make([]int, n)
+	for i := range out {
+		out[i] = g.Int(0, 7)
 	}
 	return out
 }
